@@ -29,6 +29,13 @@ ScC12 ==
     \cup Framed("strict", FALSE, TRUE, Two(3, 2), {<<4, 3>>, <<3, 1, 3>>, <<7>>})
     \cup Framed("strict", TRUE, TRUE, Two(2, 2), {<<3, 3>>})
 
+\* bodies of 12 units (thorough tier, stage 1 only)
+ScC12Big ==
+    Framed("identity", FALSE, TRUE, D(12), {<<12>>, <<5, 7>>, <<1, 4, 7>>})
+    \cup Framed("lenient", FALSE, TRUE, Two(7, 5), {<<8, 6>>, <<3, 11>>})
+    \cup Framed("strict", FALSE, TRUE, Two(7, 5), {<<8, 6>>, <<14>>})
+    \cup Framed("strict", TRUE, TRUE, One(12), {<<6, 7>>})
+
 \* --- responses to be damaged (C13); the D(3) / D(2)-t-D(1) streams are truncated codings inside an intact framing
 ScC13Tiny ==
     Framed("identity", FALSE, TRUE, D(3), {<<1, 2>>})
@@ -58,6 +65,7 @@ JustF2 == {"F2"}
 JustF3 == {"F3"}
 JustF4 == {"F4"}
 A1237 == {1, 2, 3, 7}
+AFull == {1, 2, 3, 7, 64, 1000}
 A37 == {3, 7}
 A3 == {3}
 A7 == {7}
